@@ -4,14 +4,15 @@ from __future__ import annotations
 from mc import sched as S, vmp
 from mc.core import HarnessError, viol
 
-NEEDS_WORKER = ('exit', 'hang', 'late', 'hang_traps_sigterm')
+NEEDS_WORKER = ('exit', 'hang', 'late', 'hang_traps_sigterm', 'late_unkillable')
 
 
 def ref_verdict(b):
     return {'equal': ('Equal', None), 'different': ('Different', None), 'bare_status': ('Fixed', None), 'spawns_child': ('Equal', None),
             'player_raises': ('EqualizerFailure', 'player fails'), 'extractor_raises': ('EqualizerFailure', 'extractor fails'),
             'comparator_raises': ('EqualizerFailure', 'comparator fails'), 'exit': ('EqualizerFailure', 'died'),
-            'hang': ('EqualizerFailure', 'timeout'), 'late': ('EqualizerFailure', 'timeout'), 'hang_traps_sigterm': ('EqualizerFailure', 'timeout')}[b]
+            'hang': ('EqualizerFailure', 'timeout'), 'late': ('EqualizerFailure', 'timeout'), 'hang_traps_sigterm': ('EqualizerFailure', 'timeout'),
+            'late_unkillable': ('EqualizerFailure', 'timeout'), 'player_raises_badstr': ('EqualizerFailure', None)}[b]
 
 
 def expected_procs(vec, recycle):
@@ -103,6 +104,9 @@ def explore_config(vec, cfg, bound, consumer=('drain',), want=('verdicts', 'live
         if 'verdicts' in want and res['ok'] and res['finished']:
             v2 = vec if consumed is None else vec[:consumed]
             vs += judge_verdicts(v2, res, cfg['keep'], label)
+        elif 'verdicts' in want and 'liveness' not in want:
+            vs.append(viol('verdicts:run-did-not-finish', '%s: the comparison run never finished, so later ids got no verdict (vector %s)' % (label, list(vec)),
+                           'one verdict per id', [o['id'] for o in res['out']]))
         if 'liveness' in want:
             vs += judge_liveness(vec, res, cfg, label, consumed)
         outcomes.add(repr(([(o['id'], o['status'], o['playback'], o['dt']) for o in res['out']], res['alive'], res['procs'], res['ok'])))
